@@ -317,9 +317,10 @@ def run(ctx):
     # and if every CC-setting instruction hands it the very word it stores in DR
     SF = RS + "::set_flags"
     flag_writers = set()
+    below_exec = ctx.cg.reachable([EXEC]) | {EXEC}
     for n_, f_ in prog.fns.items():
-        if f_.bkind != "fn" or not (n_.startswith("lace::") or n_.startswith("bin::")):
-            continue
+        if f_.bkind != "fn" or n_ not in below_exec:
+            continue          # executing an instruction is what C02 is about; `reset` restoring a saved flag is C12's business
         for b_, i_, s_ in f_.assigns():
             fl_ = [e_.get("n") for e_ in s_["p"].get("pr", []) if isinstance(e_, dict) and "f" in e_]
             adts_ = [e_.get("adt") for e_ in s_["p"].get("pr", []) if isinstance(e_, dict) and "f" in e_]
